@@ -640,7 +640,11 @@ impl<'a, 'b> Gen<'a, 'b> {
         let mut env: Env = vec![];
         let n_atoms = 1 + self.src.pick_weighted(&[5, 6, 3, 1]);
         let (body, ctor_atoms) = self.gen_body(&mut env, n_atoms);
-        let (head, closed) = self.gen_head(&env, &ctor_atoms);
+        let (head, mut closed) = self.gen_head(&env, &ctor_atoms);
+        // a value computed by `+` in the body can grow without bound when it reaches the head: not closed
+        if body.iter().any(|f| matches!(f, Fact::Eq(_, Term::Prim(op, _)) if op == "+")) {
+            closed = false;
+        }
         let rs = self.pick_ruleset();
         self.note_rule(rs, closed);
         self.rule_counter += 1;
